@@ -1,0 +1,28 @@
+//go:build verif
+
+package the
+
+import (
+	"sync/atomic"
+
+	"github.com/AliceO2Group/Control/common/event"
+	"github.com/AliceO2Group/Control/common/event/topic"
+)
+
+var verifWriterFactory atomic.Value // of func(topic.Topic) event.Writer
+
+// VerifSetWriterFactory makes every event writer handed out from now on come from f
+// (capture of published events by the verification harness). Existing writers are dropped.
+func VerifSetWriterFactory(f func(topic.Topic) event.Writer) {
+	verifWriterFactory.Store(f)
+	mu.Lock()
+	clear(writers)
+	mu.Unlock()
+}
+
+func verifWriterFor(t topic.Topic) event.Writer {
+	if f, ok := verifWriterFactory.Load().(func(topic.Topic) event.Writer); ok && f != nil {
+		return f(t)
+	}
+	return nil
+}
